@@ -798,6 +798,65 @@ pub fn gen_trait_headers(files: &BTreeMap<String, syn::File>, out: &mut String) 
     writeln!(out, "\n(* every trait the crate declares: (file, header, supertraits `Self:X` + parameter bounds + where-predicates +\n   associated types with each bound + associated consts + method signatures, normalised, sorted) *)\nDefinition gen_trait_headers : list (String.string * String.string * list String.string) :=\n  [{}]%string.", rows.join(";\n   ")).unwrap();
 }
 
+
+// ------------------------------------------------------------------ signatures of inherent and free functions (T1)
+
+/// every inherent method and every free function of the crate (outside test modules): (file, owner, name, the
+/// signature as normalised token text: visibility, const / unsafe qualifiers, generics, parameters, result,
+/// where-clause).  What a caller may pass, gets back, must state as bounds, and may use in a const context.
+pub fn gen_fn_sigs(files: &BTreeMap<String, syn::File>, out: &mut String) {
+    let norm = |s: String| -> String { s.split_whitespace().collect::<Vec<_>>().join(" ") };
+    let squash = |s: String| -> String {
+        let mut t: String = s.split_whitespace().collect::<Vec<_>>().join("");
+        for lt in ["'a", "'de"] {
+            t = t.replace(lt, "");
+        }
+        t
+    };
+    let vis_of = |v: &syn::Visibility| -> &'static str {
+        match v {
+            syn::Visibility::Public(_) => "pub ",
+            syn::Visibility::Restricted(_) => "pub(restricted) ",
+            syn::Visibility::Inherited => "",
+        }
+    };
+    let mut rows = vec![];
+    for (fname, file) in files {
+        for it in &file.items {
+            match it {
+                Item::Fn(f) => {
+                    rows.push(format!("(\"{}\", \"fn\", \"{}\", \"{}{}\")", fname, f.sig.ident, vis_of(&f.vis), norm(f.sig.to_token_stream().to_string()).replace('"', "\"\"")));
+                }
+                Item::Impl(im) if im.trait_.is_none() => {
+                    let owner = squash(im.self_ty.to_token_stream().to_string());
+                    let mut ib: Vec<String> = vec![];
+                    for gp in &im.generics.params {
+                        if let syn::GenericParam::Type(tp) = gp {
+                            for b in &tp.bounds {
+                                ib.push(format!("{}:{}", tp.ident, squash(b.to_token_stream().to_string())));
+                            }
+                        }
+                    }
+                    if let Some(wc) = &im.generics.where_clause {
+                        for pr in &wc.predicates {
+                            ib.push(squash(pr.to_token_stream().to_string()));
+                        }
+                    }
+                    ib.sort();
+                    let owner = if ib.is_empty() { owner } else { format!("{} where {}", owner, ib.join(",")) };
+                    for ii in &im.items {
+                        if let ImplItem::Fn(f) = ii {
+                            rows.push(format!("(\"{}\", \"{}\", \"{}\", \"{}{}\")", fname, owner, f.sig.ident, vis_of(&f.vis), norm(f.sig.to_token_stream().to_string()).replace('"', "\"\"")));
+                        }
+                    }
+                }
+                _ => {}
+            }
+        }
+    }
+    writeln!(out, "\n(* every inherent method and free function: (file, owner = the impl's Self type with the impl's bounds, name,\n   signature as normalised token text) *)\nDefinition gen_fn_sigs : list (String.string * String.string * String.string * String.string) :=\n  [{}]%string.", rows.join(";\n   ")).unwrap();
+}
+
 // ------------------------------------------------------------------ thin bodies (T1)
 
 /// every method of an impl (for a type built from GenericArray / GenericArrayIter) and every default method
